@@ -38,6 +38,141 @@ def run(R):
         r5(R)
     if R.want("C04.R6"):
         r6(R)
+    if R.want("C04.R7"):
+        r7(R)
+    if R.want("C04.R8"):
+        r8(R)
+
+
+# --------------------------------------------------------------------------------------------------
+# words over matrix atoms: a factor is (name, transposed, inverted); products are lists.  cholesky(W) is an atom ("chol", W) with the
+# axiom  chol(W) . chol(W)^T == W  (hence chol(W)^-T . chol(W)^-1 == W^-1)
+def _w_T(w):
+    return [(n_, not t_, i_) for n_, t_, i_ in reversed(w)]
+
+
+def _w_inv(w):
+    return [(n_, t_, not i_) for n_, t_, i_ in reversed(w)]
+
+
+def _w_reduce(w):
+    w = list(w)
+    changed = True
+    while changed:
+        changed = False
+        for k in range(len(w) - 1):
+            a, b = w[k], w[k + 1]
+            if isinstance(a[0], tuple) and a[0][0] == "chol" and a[0] == b[0]:
+                arg = list(a[0][1])
+                if (a[1], a[2], b[1], b[2]) == (False, False, True, False):       # C C^T = W
+                    w[k:k + 2] = arg
+                    changed = True
+                    break
+                if (a[1], a[2], b[1], b[2]) == (True, True, False, True):         # C^-T C^-1 = W^-1
+                    w[k:k + 2] = _w_inv(arg)
+                    changed = True
+                    break
+            if a[0] == b[0] and a[1] == b[1] and a[2] != b[2]:                      # X X^-1 = 1
+                w[k:k + 2] = []
+                changed = True
+                break
+    return w
+
+
+def _w_of(fn, e):
+    """matrix word of a numpy expression (dot / @, transpose / .T, inv, cholesky over the parameter and locals), or None"""
+    e = pyfacts.resolved(fn, e, 4)
+    if isinstance(e, ast.Name):
+        return [(e.id, False, False)]
+    if isinstance(e, ast.Attribute) and e.attr == "T":
+        w = _w_of(fn, e.value)
+        return None if w is None else _w_T(w)
+    if isinstance(e, ast.BinOp) and isinstance(e.op, ast.MatMult):
+        a, b = _w_of(fn, e.left), _w_of(fn, e.right)
+        return None if a is None or b is None else a + b
+    if isinstance(e, ast.Call):
+        d = (pyfacts.dotted(e.func) or "").split(".")[-1]
+        if isinstance(e.func, ast.Attribute) and e.func.attr in ("dot",) and not (pyfacts.dotted(e.func) or "").startswith(("np.", "numpy.")) and len(e.args) == 1:
+            a, b = _w_of(fn, e.func.value), _w_of(fn, e.args[0])
+            return None if a is None or b is None else a + b
+        if d == "dot" and len(e.args) == 2:
+            a, b = _w_of(fn, e.args[0]), _w_of(fn, e.args[1])
+            return None if a is None or b is None else a + b
+        if d == "transpose" and len(e.args) == 1:
+            w = _w_of(fn, e.args[0])
+            return None if w is None else _w_T(w)
+        if d == "inv" and len(e.args) == 1:
+            w = _w_of(fn, e.args[0])
+            return None if w is None else _w_inv(w)
+        if d == "cholesky" and len(e.args) == 1:
+            w = _w_of(fn, e.args[0])
+            return None if w is None else [(("chol", tuple(_w_reduce(w))), False, False)]
+        if isinstance(e.func, ast.Attribute) and e.func.attr == "transpose" and not e.args:
+            w = _w_of(fn, e.func.value)
+            return None if w is None else _w_T(w)
+    return None
+
+
+def r8(R):
+    """indexing.ubitoB(ubi) is offered as 'the B matrix from ubi'.  B is upper triangular with B^T.B = reciprocal metric tensor
+    = inverse(ubi.ubi^T) (that is what unitcell.B, grain.B and unitcell_to_b return, R2).  The function is read as a word over
+    ubi, transposes, inverses and a Cholesky factor (axiom chol(W).chol(W)^T == W); B^T.B must reduce to (ubi.ubi^T)^-1."""
+    IDX = "ImageD11/indexing.py"
+    R.rule("C04.R8", "indexing.ubitoB: with the axiom chol(W).chol(W)^T == W the returned matrix satisfies B^T.B == inverse(ubi.ubi^T), the "
+                     "reciprocal metric tensor, like unitcell.B / grain.B (it is a transposed Cholesky factor, hence upper triangular)")
+    m = pyfacts.module(R, IDX)
+    fn = m.ifunc("ubitoB", depth=2)      # helpers (ubi -> metric tensor ...) read in place
+    rets = [r for r in ast.walk(fn) if isinstance(r, ast.Return) and r.value is not None]
+    R.shape(len(rets) == 1, "C04.R8", IDX, "ubitoB", "a single return")
+    w = _w_of(fn, rets[0].value)
+    R.shape(w is not None, "C04.R8", IDX, "ubitoB", "the returned expression as a product of ubi, transposes, inverses and a Cholesky factor (%s)" % src(rets[0].value)[:70])
+    p = fn.args.args[0].arg
+    btb = _w_reduce(_w_T(w) + w)
+    want = _w_reduce(_w_inv([(p, False, False), (p, True, False)]))
+
+    def show(word):
+        def f(x):
+            n_ = x[0] if not isinstance(x[0], tuple) else "chol(%s)" % ".".join(f(y) for y in x[0][1])
+            return n_ + ("^-T" if x[1] and x[2] else "^T" if x[1] else "^-1" if x[2] else "")
+        return ".".join(f(x) for x in word) or "1"
+    R.check(btb == want, "C04.R8", IDX, rets[0].lineno, "ubitoB", "B^T.B = %s" % show(btb),
+            "B^T.B reduces to %s, the reciprocal metric tensor is %s: the matrix returned is the transposed inverse Cholesky factor of the REAL "
+            "space metric (B.B^T = reciprocal metric), which equals the Busing-Levy B only for orthogonal cells - for a hexagonal cell its "
+            "diagonal is (0.339, 0.391, ..) where unitcell.B / grain.B have (0.391, 0.339, ..), and ubitoU(ubi).ubitoB(ubi) is not inverse(ubi)" % (show(btb), show(want)))
+    # upper triangular: the outermost operation is the transpose of a (lower triangular) Cholesky factor, or the inverse of one transposed
+    last = w[-1] if w else None
+    tri = len(w) == 1 and isinstance(w[0][0], tuple) and w[0][1] is True
+    R.check(tri, "C04.R8", IDX, rets[0].lineno, "ubitoB", "B = chol(.)^T or chol(.)^-T (upper triangular)", "the returned matrix is not an upper triangular factor")
+
+
+# --------------------------------------------------------------------------------------------------
+def r7(R):
+    """numba does not check the layout a guvectorize signature declares: 'float64[:, ::1]' (or [::1]) promises a C-contiguous core
+    block and the compiled kernel then reads consecutive memory whatever the real strides are.  The map functions are applied to
+    views (point-by-point (3,3,N) stacks moved to (...,3,3), Fortran-ordered arrays, the 3x3 block of 4x4 matrices), so every array
+    in a signature must be declared with free strides ([:], [:, :])."""
+    R.rule("C04.R7", "tensor_map.py: every array in a numba.guvectorize type signature is declared with free strides (float64[:], "
+                     "float64[:, :]) - a contiguous layout ('::1') is not enforced by numba and makes the kernel read the wrong numbers "
+                     "for strided views")
+    m = pyfacts.module(R, TM)
+    n = 0
+    for q, fn in sorted(m.funcs.items()):
+        for d in fn.decorator_list:
+            if not (isinstance(d, ast.Call) and (pyfacts.dotted(d.func) or "").split(".")[-1] in ("guvectorize", "vectorize", "njit", "jit") and d.args):
+                continue
+            specs = [x for x in ast.walk(d.args[0]) if isinstance(x, ast.Subscript)]
+            for sp in specs:
+                sl = sp.slice
+                dims = list(sl.elts) if isinstance(sl, ast.Tuple) else [sl]
+                if not all(isinstance(x, ast.Slice) for x in dims):
+                    continue
+                n += 1
+                fixed = [x for x in dims if x.step is not None]
+                R.check(not fixed, "C04.R7", TM, d.lineno, q, "signature array %s" % src(sp),
+                        "the signature declares a contiguous layout (step %s): numba takes that on trust, so for an input whose core block is "
+                        "strided (a transposed or Fortran-ordered stack, a slice of larger matrices) the kernel reads 9 consecutive doubles "
+                        "instead of the 3x3 block - wrong UB / metric tensor / U and NaN masks in the wrong voxels, silently" % src(fixed[0].step) if fixed else "")
+    R.floor("C04.R7", 30)
 
 
 # --------------------------------------------------------------------------------------------------
@@ -81,12 +216,18 @@ def r6(R):
     deleted = set()
     understood = True
     for l in ast.walk(cc):
-        if isinstance(l, ast.For) and isinstance(l.iter, (ast.Tuple, ast.List, ast.Set)) and all(isinstance(e, ast.Constant) for e in l.iter.elts):
+        it_ = l.iter if isinstance(l, ast.For) else None
+        if isinstance(it_, ast.Name):
+            glob = [n_.value for n_ in m.tree.body if isinstance(n_, ast.Assign) and any(isinstance(t_, ast.Name) and t_.id == it_.id for t_ in n_.targets)]
+            # a module-level constant that no function rebinds or mutates
+            if len(glob) == 1 and it_.id not in pyfacts.module_state(m):
+                it_ = glob[0]
+        if isinstance(l, ast.For) and isinstance(it_, (ast.Tuple, ast.List, ast.Set)) and all(isinstance(e, ast.Constant) for e in it_.elts):
             tgt = src(l.target)
             dels = [d for d in ast.walk(l) if (isinstance(d, ast.Delete) and any(src(t) == "self.maps[%s]" % tgt for t in d.targets))
                     or (isinstance(d, ast.Call) and src(d.func) == "self.maps.pop" and d.args and src(d.args[0]) == tgt)]
             if dels:
-                deleted |= set(e.value for e in l.iter.elts)
+                deleted |= set(e.value for e in it_.elts)
         if isinstance(l, ast.Delete):
             for t in l.targets:
                 if isinstance(t, ast.Subscript) and src(t.value) == "self.maps" and isinstance(t.slice, ast.Constant):
@@ -397,6 +538,11 @@ def r5(R):
                 continue
             for x in ast.walk(fn):
                 if isinstance(x, ast.Name) and x.id == a and isinstance(x.ctx, ast.Load) and id(x) not in in_test:
+                    par = getattr(x, "_parent", None)
+                    if isinstance(par, ast.Attribute) and par.value is x and par.attr in ("shape", "ndim", "dtype", "size", "strides", "itemsize"):
+                        continue      # metadata of the array, not its values
+                    if isinstance(par, ast.Call) and src(par.func) == "len" and par.args and par.args[0] is x:
+                        continue
                     node = cfg.node_of(x)
                     if node is None:
                         continue
